@@ -498,18 +498,16 @@ func loadMetadata(bs []byte) (*meta, error) {
 	offset := sectionsStart
 
 	for _, so := range sos {
-		if _, exists := knownSections[so.Name]; !exists {
-			continue
-		}
-		if so.Name == "responses" {
-			continue
-		}
-		if uint64(len(bs)) <= offset {
-			return nil, &LoadMetadataError{fmt.Errorf("bundle: section %q's computed offset %q out-of-range.", so.Name, offset), FormatError, fallbackURL}
-		}
+		// Every section, known or not, has to lie inside the input, and offset
+		// has to advance past it so that the following sections are found where
+		// the section-lengths table puts them.
 		end := offset + so.Length
-		if uint64(len(bs)) <= end {
+		if end < offset || uint64(len(bs)) < end {
 			return nil, &LoadMetadataError{fmt.Errorf("bundle: section %q's end %q out-of-range.", so.Name, end), FormatError, fallbackURL}
+		}
+		if _, exists := knownSections[so.Name]; !exists || so.Name == "responses" {
+			offset = end
+			continue
 		}
 
 		sectionContents := bs[offset:end]
